@@ -278,6 +278,39 @@ pub fn check(cx: &Cx, rep: &mut Report) {
             };
             ops.push(HOp { b: o.b, e, k: kind, desc });
         }
+        // R3 (L1): "register ... otherwise fails without changing the registry": a refused register leaves the registered
+        // instance alone.  Judged where the refused candidate x is itself the registered instance (an idempotent second
+        // `register` of a clone, an address that came from a lookup, two tasks offering the same instance): x was
+        // installed by an earlier successful register / replace, nothing has displaced it since, so the registry holds it
+        // and it cannot have ended for want of handles; if it winds down after the refusal although nobody asked it to
+        // (no stop / halt / consume / restart through any handle naming it, no stop from its own context, no fault), the
+        // refused call did that.
+        if !cx.mt {
+            for o in ix.ops.iter().filter(|o| o.b < settled && o.executed() && o.op == OpK::Register && o.arg == k as u64) {
+                let Some(Res::Prev { ok: false, .. }) = &o.res else { continue };
+                let Some(x) = slot_obj.get(&(o.c, o.slot)).copied() else { continue };
+                let Some(t) = task_of_obj.get(&x).copied() else { continue };
+                let names_x = |p: &&crate::index::OpRec| slot_obj.get(&(p.c, p.slot)).copied() == Some(x);
+                let installed = ix.ops.iter().filter(names_x).filter(|p| p.executed() && p.e.map(|e| e < o.b).unwrap_or(false)).filter(|p| matches!((&p.op, &p.res), (OpK::Register, Some(Res::Prev { ok: true, .. })) | (OpK::Replace, Some(Res::Prev { .. })))).map(|p| (p.b, p.c, p.i)).max();
+                let Some((inst_at, inst_c, inst_i)) = installed else { continue };
+                let Some(t_stop) = ix.cbs.iter().filter(|c| c.actor == t && c.cb == Cb::Stopped && c.i > o.b && c.i < settled).map(|c| c.i).min() else {
+                    rep.premise("C08.R3.refused_register_leaves_registered_instance_alone");
+                    continue;
+                };
+                let displaced = ix.ops.iter().any(|p| {
+                    p.arg == k as u64 && p.e.unwrap_or(u64::MAX) > inst_at && p.b < t_stop && p.executed() && !(p.c == o.c && p.i == o.i) && !(p.c == inst_c && p.i == inst_i)
+                        && matches!((&p.op, &p.res), (OpK::Unregister, _) | (OpK::Replace, _) | (OpK::Register, Some(Res::Prev { ok: true, .. })) | (OpK::SpawnRegister, _))
+                });
+                let asked = ix.ops.iter().filter(names_x).any(|p| p.b < t_stop && p.executed() && matches!(p.op, OpK::Stop | OpK::Halt | OpK::Consume | OpK::ConsumeSync | OpK::Restart))
+                    || ix.ev.iter().any(|e| e.stamp < t_stop && (matches!(&e.k, K::Effect { actor, what, .. } if *actor == t && (*what == "ctx_stop" || *what == "reap_stop" || *what == "ctx_restart")) || (matches!(&e.k, K::Fault { .. }) && e.task == t)))
+                    || cx.prog.cancel.is_some();
+                if displaced || asked {
+                    continue;
+                }
+                rep.premise("C08.R3.refused_register_leaves_registered_instance_alone");
+                rep.fail(P, "R3", "refused_register_stopped_registered_instance", format!("register c{}#{} of the registered instance (obj {x}) was refused at #{}, and that instance began to stop at #{t_stop} although nobody asked it to and the registry still held it", o.c, o.i, o.b), vec![o.b, t_stop]);
+            }
+        }
         if unnamed {
             rep.count("C08.histories_with_unnamed_instance", 1);
             continue;
